@@ -43,6 +43,7 @@ class Verifier:
         self.stmt_hook = None
         self.fs_model = None
         self.module_globals = {}
+        self.global_model = None
         self._spec_cache = {}
         self._loop_ord = {}
         self.covers = set()
@@ -189,6 +190,13 @@ class Verifier:
 
     def run_path(self, I, fn, con):
         env = self.setup_env(I, fn, con)
+        if con.extra.get("global_model_is_self"):
+            # assumption (fork start method): the worker's module-global
+            # `_model` is the model object itself
+            self.global_model = env.get("self")
+        elif con.extra.get("global_model_shape"):
+            self.global_model = I.fresh_obj(con.extra["global_model_shape"],
+                                            "_model")
         for gname, gty in con.ghost.items():
             env[gname] = I.fresh(gty, gname)
         for name, e in con.let.items():
